@@ -333,7 +333,7 @@ def run_config(cfg, rec):
             expected[f"m{k}"] = [core.evalf(zreal(x), env) for x in c["matrix"].flat]
             expected[f"y{k}"] = [core.evalf(zreal(x), env) for x in c["data"].flat]
         rec.validate("random-point", dict(env), expected)
-        rec.sample({"solver_calls": len(calls), "first_matrix_entry": str(zreal(calls[0]["matrix"].flat[0])) if calls else None,
+        rec.want_sample() and rec.sample({"solver_calls": len(calls), "first_matrix_entry": str(zreal(calls[0]["matrix"].flat[0])) if calls else None,
                     "penalty_entries": len(np.asarray(pen).flat)})
 
 
